@@ -3127,6 +3127,44 @@ func (c *Ctx) ruleCloserFirst(rule string) {
 	if n == 0 {
 		r.Und(rule, "NodeController.Close:closer-first", p.Pos(fn.Pos()), "no Unwrap() call found in NodeController.Close")
 	}
+	// Close gives up ("nothing to close", a result that is not the node's own Close result) only for a node that
+	// was found to be NEITHER a Closer NOR a NodeUnwrapper (or nil): an iteration budget, a depth counter or any other
+	// exit leaves the Closer behind the remaining wrappers open while the broker has already forgotten the node.
+	nRet := 0
+	for _, b := range fn.Blocks {
+		if len(b.Instrs) == 0 {
+			continue
+		}
+		ret, isRet := b.Instrs[len(b.Instrs)-1].(*ssa.Return)
+		if !isRet || len(ret.Results) != 1 {
+			continue
+		}
+		if call, isCall := ret.Results[0].(*ssa.Call); isCall && calleeName(call.Common()) == "invoke eventlogger.Closer.Close" {
+			continue
+		}
+		nRet++
+		neg := map[string]bool{}
+		for _, d := range fn.Blocks {
+			cond, tsucc, fsucc := condOf(d)
+			if cond == nil {
+				continue
+			}
+			if ex, isEx := cond.(*ssa.Extract); isEx && ex.Index == 1 {
+				if ta, isTA := ex.Tuple.(*ssa.TypeAssert); isTA && edgeDominates(d, fsucc, b) {
+					neg[typeShort(ta.AssertedType)] = true
+				}
+			}
+			if bo, isB := cond.(*ssa.BinOp); isB && bo.Op == token.EQL && (isNilConst(bo.X) || isNilConst(bo.Y)) && edgeDominates(d, tsucc, b) {
+				neg["eventlogger.Closer"], neg["eventlogger.NodeUnwrapper"] = true, true
+			}
+		}
+		r.Check(neg["eventlogger.Closer"] && neg["eventlogger.NodeUnwrapper"], rule, "NodeController.Close:gives-up-only-at-plain-node", p.InstrPos(ret),
+			"Close returns without closing only for a node that is neither a Closer nor a NodeUnwrapper",
+			"Close can return without having called a Close although the node at hand was not found to be neither a Closer nor a NodeUnwrapper (an iteration budget or another exit of the unwrap loop): the Closer behind the remaining wrappers stays open although the broker has released the node")
+	}
+	if nRet == 0 {
+		r.Und(rule, "NodeController.Close:gives-up-only-at-plain-node", p.Pos(fn.Pos()), "no `nothing to close` return found in NodeController.Close")
+	}
 }
 
 // ruleFileReopen (C08.reopen): "external renames of the active file followed by
@@ -6211,4 +6249,292 @@ func (c *Ctx) rulePointerKindGuard(rule string) {
 	if n < 4 {
 		r.Und(rule, "Pointer-kind:instance-floor", "", fmt.Sprintf("only %d Pointer() calls found in package encrypt (trackMap, the sweep and trackTaggable expected)", n))
 	}
+}
+
+// ruleTaggableThenGeneric (C09.handlers <fn>:taggable-then-generic): applying an
+// element's / field's pointer tags (filterTaggable) is an ADDITION to the generic
+// handling, not an alternative to it: filterTaggable touches only what the tags name
+// (and tracks a map only when a tag matched one of its keys), so everything else in
+// a Taggable map is redacted only because the map is also tracked for the sweep and
+// everything else in a Taggable struct only because its fields are also walked.
+// Decided on the flow graph: from every filterTaggable call in Process and
+// filterField, within the same iteration of the enclosing loop, a trackMap call AND
+// a filterField call are still reachable.
+func (c *Ctx) ruleTaggableThenGeneric(rule string) {
+	p, r := c.P, c.R
+	n := 0
+	for _, name := range []string{"Process", "filterField"} {
+		fn := c.Fn(rule, PkgEncrypt, "Filter", name)
+		if fn == nil {
+			continue
+		}
+		calls := callsTo(fn, func(nm string, cc *ssa.CallCommon) bool { return nm == "(*filters/encrypt.Filter).filterTaggable" })
+		for k, ci := range calls {
+			n++
+			h := innermostHeader(ci.Block())
+			seen := map[*ssa.BasicBlock]bool{ci.Block(): true}
+			work := []*ssa.BasicBlock{}
+			for _, s := range ci.Block().Succs {
+				if s != h && !seen[s] {
+					seen[s] = true
+					work = append(work, s)
+				}
+			}
+			found := map[string]bool{}
+			scan := func(b *ssa.BasicBlock, after ssa.Instruction) {
+				on := after == nil
+				for _, in := range b.Instrs {
+					if !on {
+						on = in == after
+						continue
+					}
+					if cc, ok := in.(ssa.CallInstruction); ok {
+						found[calleeName(cc.Common())] = true
+					}
+				}
+			}
+			scan(ci.Block(), ci)
+			for len(work) > 0 {
+				b := work[len(work)-1]
+				work = work[:len(work)-1]
+				scan(b, nil)
+				for _, s := range b.Succs {
+					if s != h && !seen[s] {
+						seen[s] = true
+						work = append(work, s)
+					}
+				}
+			}
+			ok := found["(*filters/encrypt.trackedMaps).trackMap"] && found["(*filters/encrypt.Filter).filterField"]
+			r.Check(ok, rule, fmt.Sprintf("%s:taggable-then-generic#%d", name, k+1), p.InstrPos(ci),
+				"after the tags of a Taggable value were applied, tracking it as a map and walking it as a struct are both still reachable for the same value",
+				"after filterTaggable the same value can no longer reach both trackMap and filterField (the Taggable arm became an alternative to the generic handling): filterTaggable touches only what the tags name, so the untagged values of a Taggable map whose tags match no key, or the class-tagged and unclassified fields of a Taggable struct, are forwarded in plaintext")
+		}
+	}
+	if n < 4 {
+		r.Und(rule, "taggable-then-generic:instance-floor", "", fmt.Sprintf("only %d filterTaggable calls found in Process and filterField (4 confirmed by hand)", n))
+	}
+}
+
+// rulePanicSafeRelease (C12.release <fn>:<lock>:panic-safe): "no sequence of API calls
+// can leave the Broker permanently locked". A critical section of the Broker's registry
+// lock that is released by an explicit Unlock (not a deferred one) stays locked for good
+// when something inside it panics and the caller recovers. That is harmless only for
+// sections that run no code but the library's own; a section that (transitively, through
+// the package's own functions) invokes a method of a user-implementable interface — even
+// an accessor such as Node.Type() — or calls a function value handed in from outside must
+// release the lock in a defer.
+func (c *Ctx) rulePanicSafeRelease(rule string, ifacePkgs []string) {
+	p, r := c.P, c.R
+	var foreign func(fn *ssa.Function, seen map[*ssa.Function]bool) string
+	foreignCall := func(ci ssa.CallInstruction, seen map[*ssa.Function]bool) string {
+		cc := ci.Common()
+		if cc.IsInvoke() {
+			if n, ok := cc.Value.Type().(*types.Named); ok && n.Obj().Pkg() != nil {
+				for _, ip := range ifacePkgs {
+					if n.Obj().Pkg().Path() == ip {
+						return fmt.Sprintf("%s.%s at %s", n.Obj().Name(), cc.Method.Name(), p.InstrPos(ci))
+					}
+				}
+			}
+			return ""
+		}
+		if callee := cc.StaticCallee(); callee != nil {
+			if callee.Pkg != nil && strings.HasPrefix(callee.Pkg.Pkg.Path(), PkgRoot) || callee.Parent() != nil {
+				if w := foreign(callee, seen); w != "" {
+					return p.ShortFn(callee) + " -> " + w
+				}
+			}
+			return ""
+		}
+		if _, isBuiltin := cc.Value.(*ssa.Builtin); isBuiltin {
+			return ""
+		}
+		if mc, ok := cc.Value.(*ssa.MakeClosure); ok {
+			if f, ok := mc.Fn.(*ssa.Function); ok {
+				return foreign(f, seen)
+			}
+		}
+		return fmt.Sprintf("function value %s called at %s", cc.Value.Name(), p.InstrPos(ci))
+	}
+	foreign = func(fn *ssa.Function, seen map[*ssa.Function]bool) string {
+		if seen[fn] || fn.Blocks == nil {
+			return ""
+		}
+		seen[fn] = true
+		for _, b := range fn.Blocks {
+			for _, in := range b.Instrs {
+				if _, isGo := in.(*ssa.Go); isGo {
+					continue
+				}
+				if ci, ok := in.(ssa.CallInstruction); ok {
+					if w := foreignCall(ci, seen); w != "" {
+						return w
+					}
+				}
+			}
+		}
+		return ""
+	}
+	n := 0
+	for _, f := range p.FuncsIn(PkgRoot) {
+		for _, b := range f.Blocks {
+			for i, in := range b.Instrs {
+				ci, ok := in.(*ssa.Call)
+				if !ok {
+					continue
+				}
+				op := lockOpOf(ci.Common())
+				if op == nil || !op.Acquire || !strings.HasPrefix(op.Class, "eventlogger.Broker.") {
+					continue
+				}
+				n++
+				construct := p.ShortFn(f) + ":" + op.Class + ":panic-safe"
+				deferred := false
+				eachInstr(f, func(x ssa.Instruction) {
+					if d, ok := x.(*ssa.Defer); ok {
+						if o := lockOpOf(d.Common()); o != nil && !o.Acquire && o.Class == op.Class {
+							deferred = true
+						}
+					}
+				})
+				if deferred {
+					r.Ok(rule, construct, p.InstrPos(in), "released by a deferred unlock: a panic inside the section releases the lock")
+					continue
+				}
+				// the section: instructions from the acquire up to an explicit release of the class
+				why := ""
+				seenB := map[*ssa.BasicBlock]bool{}
+				var walk func(blk *ssa.BasicBlock, from int)
+				walk = func(blk *ssa.BasicBlock, from int) {
+					for _, x := range blk.Instrs[from:] {
+						if cx, ok := x.(ssa.CallInstruction); ok {
+							if o := lockOpOf(cx.Common()); o != nil && !o.Acquire && o.Class == op.Class {
+								return
+							}
+							if _, isGo := x.(*ssa.Go); isGo {
+								continue
+							}
+							if _, isDefer := x.(*ssa.Defer); isDefer {
+								continue
+							}
+							if w := foreignCall(cx, map[*ssa.Function]bool{}); w != "" && why == "" {
+								why = w
+							}
+						}
+					}
+					for _, s := range blk.Succs {
+						if !seenB[s] {
+							seenB[s] = true
+							walk(s, 0)
+						}
+					}
+				}
+				walk(b, i+1)
+				r.Check(why == "", rule, construct, p.InstrPos(in), "explicitly released section runs only the library's own code (nothing in it can panic on behalf of a user implementation)",
+					"the section is released by an explicit unlock, not a deferred one, and runs foreign code ("+why+"): when that code panics and the caller recovers, the lock is never released and every later Broker call blocks for good")
+			}
+		}
+	}
+	if n < 10 {
+		r.Und(rule, "panic-safe:instance-floor", "", fmt.Sprintf("only %d acquisitions of the Broker lock found (10 confirmed by hand)", n))
+	}
+}
+
+// lockPathIn reports where t (held by value) contains a synchronisation primitive that
+// must not be copied after first use: sync.Mutex, RWMutex, Map, WaitGroup, Once, Cond,
+// Pool and the typed atomics.
+func lockPathIn(t types.Type, seen map[types.Type]bool) string {
+	if seen[t] {
+		return ""
+	}
+	seen[t] = true
+	if n, ok := t.(*types.Named); ok && n.Obj().Pkg() != nil {
+		switch n.Obj().Pkg().Path() {
+		case "sync":
+			switch n.Obj().Name() {
+			case "Mutex", "RWMutex", "Map", "WaitGroup", "Once", "Cond", "Pool":
+				return "sync." + n.Obj().Name()
+			}
+		case "sync/atomic":
+			if _, isStruct := n.Underlying().(*types.Struct); isStruct {
+				return "atomic." + n.Obj().Name()
+			}
+		}
+	}
+	switch u := t.Underlying().(type) {
+	case *types.Struct:
+		for i := 0; i < u.NumFields(); i++ {
+			if w := lockPathIn(u.Field(i).Type(), seen); w != "" {
+				return u.Field(i).Name() + ":" + w
+			}
+		}
+	case *types.Array:
+		return lockPathIn(u.Elem(), seen)
+	}
+	return ""
+}
+
+// ruleNoLockCopy (<prefix>.nocopy): the Broker's registry, the per-type graphs, the
+// pipeline map (a sync.Map wrapper ranged by Send WITHOUT the Broker lock) and the stock
+// nodes are shared by address. A method with a VALUE receiver on such a type — or a
+// by-value parameter, result, or `x := *p` — copies the sync.Map / mutex inside with
+// plain loads while other goroutines write it (Range promotes the dirty map, Lock sets
+// state bits) and then works on the copy: a data race, an update applied to a private
+// copy (lost), or a copied locked mutex that nobody ever unlocks. go vet's copylocks is
+// not among the analyzers `go test` runs, so the suite never sees it.
+func (c *Ctx) ruleNoLockCopy(rule string) {
+	p, r := c.P, c.R
+	nTypes, nFns := 0, 0
+	seenT := map[types.Type]bool{}
+	for _, f := range c.allFuncs() {
+		if !p.InRepo(f) || f.Synthetic != "" {
+			continue
+		}
+		nFns++
+		sig := f.Signature
+		check := func(what string, v *types.Var) {
+			if v == nil {
+				return
+			}
+			if w := lockPathIn(v.Type(), map[types.Type]bool{}); w != "" {
+				r.Bad(rule, p.ShortFn(f)+":"+what, p.Pos(f.Pos()), fmt.Sprintf("%s %s of %s is passed BY VALUE although it contains %s: every call copies the primitive with plain loads while other goroutines use it and then works on the private copy (race, lost update, or a copied locked mutex that is never unlocked)", what, v.Name(), p.ShortFn(f), w))
+			}
+		}
+		check("receiver", sig.Recv())
+		for i := 0; i < sig.Params().Len(); i++ {
+			check("parameter", sig.Params().At(i))
+		}
+		for i := 0; i < sig.Results().Len(); i++ {
+			check("result", sig.Results().At(i))
+		}
+		if rv := sig.Recv(); rv != nil {
+			if pt, ok := rv.Type().(*types.Pointer); ok {
+				if !seenT[pt.Elem()] && lockPathIn(pt.Elem(), map[types.Type]bool{}) != "" {
+					seenT[pt.Elem()] = true
+					nTypes++
+				}
+			}
+		}
+		eachInstr(f, func(in ssa.Instruction) {
+			ld, ok := in.(*ssa.UnOp)
+			if !ok || ld.Op != token.MUL {
+				return
+			}
+			if _, isAlloc := ld.X.(*ssa.Alloc); isAlloc {
+				// a local that was just built (composite literal) and is moved to its final place
+				if al := ld.X.(*ssa.Alloc); !al.Heap {
+					return
+				}
+			}
+			if w := lockPathIn(ld.Type(), map[types.Type]bool{}); w != "" {
+				r.Bad(rule, p.ShortFn(f)+":copy", p.InstrPos(ld), fmt.Sprintf("a %s value is copied out of its shared location although it contains %s", typeShort(ld.Type()), w))
+			}
+		})
+	}
+	if nTypes < 6 {
+		r.Und(rule, "nocopy:instance-floor", "", fmt.Sprintf("only %d repository types with methods contain a synchronisation primitive (6 confirmed by hand: Broker, graph, graphMap, Event, FileSink, encrypt.Filter, gated.Filter, ...)", nTypes))
+		return
+	}
+	r.Ok(rule, "nocopy", "", fmt.Sprintf("%d functions, %d lock-holding types: no by-value receiver, parameter, result or dereference copy of a type that contains a synchronisation primitive", nFns, nTypes))
 }
